@@ -65,7 +65,9 @@ func (s *SetWithTTL[T]) cleanup() int {
 	s.mut.Lock()
 	defer s.mut.Unlock()
 	maps.DeleteFunc(s.Items, func(k T, exp time.Time) bool {
-		return exp.Before(s.Clock.Now())
+		// an item is present only while its expiration is in the future,
+		// which is the same test Contains uses
+		return !exp.After(s.Clock.Now())
 	})
 	return len(s.Items)
 }
